@@ -567,7 +567,7 @@ FROZEN_LETTERS = ("read", "with_alias", "with_target", "deepcopy", "mutate_last"
 # collection-typed (non-passthrough) aliases: element helpers on the alias are local writes
 
 CA_LETTERS = ["alias_elem_inplace", "alias_elem_copy", "target_elem_inplace", "target_elem_copy", "read", "deepcopy", "delete_alias"]
-CA_KINDS = ["list", "dict", "set"]
+CA_KINDS = ["list", "dict", "set", "spec"]
 _CA = {}
 
 
@@ -578,14 +578,18 @@ def ca_class():
         from spec_classes import spec_class
         from spec_classes.types import Alias
 
-        ns = {"__annotations__": {"xs": List[int], "ys": List[int], "m": Dict[str, int], "m2": Dict[str, int], "s": Set[int], "s2": Set[int]},
-              "xs": [1], "ys": Alias("xs"), "m": {"a": 1}, "m2": Alias("m"), "s": {1}, "s2": Alias("s"), "__module__": "vf.generated"}
+        Sub = spec_class(bootstrap=True)(type("Sub", (), {"__annotations__": {"x": int, "tags": List[int]}, "x": 1, "tags": [], "__module__": "vf.generated"}))
+        _CA["Sub"] = Sub
+        ns = {"__annotations__": {"xs": List[int], "ys": List[int], "m": Dict[str, int], "m2": Dict[str, int], "s": Set[int], "s2": Set[int], "sub": Sub, "sa": Sub},
+              "xs": [1], "ys": Alias("xs"), "m": {"a": 1}, "m2": Alias("m"), "s": {1}, "s2": Alias("s"), "sub": Sub(), "sa": Alias("sub"), "__module__": "vf.generated"}
         _CA["cls"] = spec_class(bootstrap=True)(type("CA", (), ns))
     return _CA["cls"]
 
 
 def run_collection_alias(ctx, case):
     kind, seq = case["collection_alias"], case["ops"]
+    if kind == "spec":
+        return run_spec_alias(ctx, case)
     tname, aname, tsing, asing = {"list": ("xs", "ys", "x", "y"), "dict": ("m", "m2", "m_item", "m2_item"), "set": ("s", "s2", "s_item", "s2_item")}[kind]
     obj = ca_class()()
     T = {"list": [1], "dict": {"a": 1}, "set": {1}}[kind]
@@ -641,6 +645,51 @@ def run_collection_alias(ctx, case):
             return
         if Ov is not None and got_a is got_t:
             ctx.fail(f"collection_alias:{kind}:{op}:entangled", case, f"step {i} {op}: the alias's local value IS the target's object")
+            return
+    ctx.case(case, "alias_elem_inplace" in seq and len(seq) >= 2)
+
+
+def run_spec_alias(ctx, case):
+    """The target holds a nested spec instance: keyword updates through the (non-passthrough) alias - in place or by copy - give
+    the alias a value of its own and never edit the object the target holds."""
+    seq = case["ops"]
+    obj = ca_class()()
+    T, Ov, n = 1, None, 1
+    for i, op in enumerate(seq):
+        n += 1
+        try:
+            if op == "alias_elem_inplace":
+                obj.update_sa(x=n, _inplace=True) if n % 2 else obj.transform_sa(x=lambda v, _n=n: _n, _inplace=True)
+                Ov = n
+            elif op == "alias_elem_copy":
+                obj = obj.update_sa(x=n)
+                Ov = n
+            elif op == "target_elem_inplace":
+                obj.update_sub(x=n, _inplace=True)
+                T = n
+            elif op == "target_elem_copy":
+                obj = obj.update_sub(x=n)
+                T = n
+            elif op == "deepcopy":
+                obj = copy.deepcopy(obj)
+            elif op == "delete_alias":
+                if Ov is None:
+                    continue
+                del obj.sa
+                Ov = None
+        except CLEAN as e:
+            ctx.fail(f"collection_alias:spec:{op}:raises:{type(e).__name__}", case, f"step {i} {op} raised {e!r}")
+            return
+        got_t, got_a = obj.sub.x, obj.sa.x
+        if got_t != T:
+            ctx.fail(f"collection_alias:spec:{op}:target_changed" if op.startswith("alias") else f"collection_alias:spec:{op}:target_wrong", case,
+                     f"step {i} {op}: target sub.x is {got_t!r}, expected {T!r} (a write to a non-passthrough alias shadows the target without modifying it)")
+            return
+        if got_a != (Ov if Ov is not None else T):
+            ctx.fail(f"collection_alias:spec:{op}:alias_wrong", case, f"step {i} {op}: alias sa.x reads {got_a!r}, expected {(Ov if Ov is not None else T)!r}")
+            return
+        if Ov is not None and obj.sa is obj.sub:
+            ctx.fail(f"collection_alias:spec:{op}:entangled", case, f"step {i} {op}: the alias's local value IS the target's object")
             return
     ctx.case(case, "alias_elem_inplace" in seq and len(seq) >= 2)
 
